@@ -564,7 +564,7 @@ def run(ctx):
         check_results(ctx, res, _lim_batch(cc), 'corpus')
     res['scopes']['corpus'] = len(cc)
     # (b) exhaustive small scope
-    maxlen = 7 if ctx.deep else 5
+    maxlen = 9 if ctx.deep else 6
     total, reached = exhaustive_limiter(ctx, res, maxlen)
     res['scopes']['exhaustive_limiter'] = {'max_ops': reached, 'initial_limits': [1, 2, 3],
                                            'streams': total, 'tail': f'{PROBES} probes + drain'}
